@@ -157,3 +157,54 @@ class TwoLevelSpace(Space):
 
     def steps(self, i):
         return self._s
+
+
+class SparseSpace(Space):
+    """S(n, r): longer programs with few *deviations*: sequences of up to n atoms that are implicitly sequenced except
+    for at most r entries that carry an explicit relation (FOLLOWED_BY or JOINED_START to any earlier entry).
+    Deep relation trees with leaves at different depths on one qubit need 5-6 entries; F(n) cannot reach them."""
+    name = 'S'
+    ATOMS = [('X', 0), ('X', 1), ('P', 0), ('R', 0)]
+    RTS = ('FB', 'JS')
+
+    def __init__(self, max_len, max_rel=2, min_len=4, atoms=None, last_atoms=None):
+        super().__init__(max_len)
+        self.max_rel, self.min_len = max_rel, min_len
+        if atoms is not None:
+            self.ATOMS = list(atoms)
+        self.LAST = list(last_atoms) if last_atoms is not None else list(self.ATOMS)
+
+    def count_len(self, L):
+        import math
+        n = len(self.ATOMS) ** (L - 1) * len(self.LAST)
+        opts = [len(self.RTS) * i for i in range(L)]
+        tot = 0
+        for r in range(0, self.max_rel + 1):
+            for pos in itertools.combinations(range(L), r):
+                t = 1
+                for p_ in pos:
+                    t *= opts[p_]
+                tot += t
+        return n * tot
+
+    def count(self):
+        return sum(self.count_len(L) for L in range(self.min_len, self.max_len + 1))
+
+    def shards(self):
+        return [(L, a, b) for L in range(self.min_len, self.max_len + 1) for a in range(len(self.ATOMS)) for b in range(len(self.ATOMS))]
+
+    def cases(self, shard):
+        L, a, b = shard
+        for atoms in itertools.product(range(len(self.ATOMS)), repeat=L - 3):
+          for last in self.LAST:
+            seq = [self.ATOMS[a], self.ATOMS[b]] + [self.ATOMS[i] for i in atoms] + [last]
+            for r in range(0, self.max_rel + 1):
+                for pos in itertools.combinations(range(1, L), r):
+                    choices = [[(t, j) for t in self.RTS for j in range(p_)] for p_ in pos]
+                    for rels in itertools.product(*choices):
+                        relmap = dict(zip(pos, rels))
+                        yield tuple(('op', k, q, relmap.get(i)) for i, (k, q) in enumerate(seq))
+
+    def describe(self):
+        return {'space': self.name, 'max_len': self.max_len, 'min_len': self.min_len, 'max_explicit_relations': self.max_rel,
+                'programs': self.count(), 'atoms': self.ATOMS, 'last_atoms': self.LAST, 'relation_types': list(self.RTS)}
